@@ -144,6 +144,9 @@ func (p *instancePool) Run(ctx context.Context) error {
 
 	rh, err := p.runAsync(ctx)
 	if err != nil {
+		if p.onWaitDone != nil {
+			p.onWaitDone()
+		}
 		return err
 	}
 
